@@ -23,6 +23,14 @@ pub struct Cfg {
     pub user_only: bool,
 }
 
+#[cfg(feature = "ub")]
+pub fn all_roots() -> Vec<&'static dyn Root> {
+    let mut v: Vec<&'static dyn Root> = ub::ROOTS.to_vec();
+    v.sort_by_key(|r| r.name());
+    v
+}
+
+#[cfg(not(feature = "ub"))]
 pub fn all_roots() -> Vec<&'static dyn Root> {
     let mut v: Vec<&'static dyn Root> = vec![];
     for t in [u0::ROOTS, u1::ROOTS, u2::ROOTS, u3::ROOTS, u4::ROOTS, u5::ROOTS, u6::ROOTS, u7::ROOTS] {
